@@ -276,6 +276,8 @@ def plan(tier, seed):
               ("script", dict(skeleton="T3", script=[dict(k="group", edits=[num("job", "request_duration"), num("step", "user_time_spent")])])),
               ("script", dict(skeleton="T1", script=[num("job", "data_transferred", may_equal=True)]))]
     fixed = [("script", dict(skeleton="T5", script=[dict(k="fixed", obj="srv", val="sym"), dict(k="fixed", obj="srv", val=None)])),
+             ("script", dict(skeleton="T5", args={"type1": "on-premise", "type2": "serverless", "fixed1": 40}, script=[dict(k="fixed", obj="srv", val="sym"), dict(k="fixed", obj="srv", val="sym")])),
+             ("script", dict(skeleton="T1", args={"fixed": None}, script=[dict(k="fixed", obj="st", val="sym"), dict(k="fixed", obj="st", val="sym")])),
              ("script", dict(skeleton="T1", script=[dict(k="fixed", obj="st", val="sym"), dict(k="fixed", obj="st", val=None)]))]
     if tier == "quick":
         rnd.shuffle(shared)
